@@ -9,6 +9,8 @@ cd /verif
 ./run.sh check "$prop" "$tier" > /tmp/try_patch.out 2>&1
 code=$?
 git -C /repo checkout -- .
+# rebuild so that the binary on disk never stays a mutant
+(cd /verif/sim && cargo build --release --offline >/dev/null 2>&1)
 git -C /repo status --short | grep -v '^??' | head -3
 grep -E "^VIOLATION|clause=|^runs=|HARNESS|KNOWN" /tmp/try_patch.out | cut -c1-400
 echo "exit=$code"
